@@ -86,12 +86,12 @@ CHECKS = {
  "C13": ("E1-vsched + E2", "model_checking",
    "stateless deviation-bounded exploration of the instrumented rddetector main() (walker, workers, result writer) with the report judged at process exit; header-as-specification column check of every scale's worker; end-to-end binary runs",
    "The real main() of tools/rddetector (instrumented from the working tree; channels, WaitGroup, go statements, file writes as scheduling points) runs with os.Args set on F=1..3 sample files and n=1..3(64) workers; every schedule within the deviation bound must end with a report = header + exactly one complete row per .bin/.dat file with the right values. Every column of every scale (2E4, 1E6, 1E8) is compared with the library call its header label names on 8 (4) files; each scale's worker also runs under the controlled scheduler on a small file with scheduling points at every statement touching a variable shared with a goroutine; stale longer reports and directories named *.bin/*.dat are part of the family; race pass; the built binary is run end to end on 1/5/7/33 files.",
-   "deviation bound 1 (2 in thorough for F<=2,n<=2); the 10^8 scale is exercised through its worker on 25000-byte files",
+   "deviation bound 1 (thorough: 4 for one file, 3 for two files and two workers, 2 for the other F<=2,n<=2); the 10^8 scale is exercised through its worker on 25000-byte files",
    "DESIGN.md section 3 C13"),
  "C20": ("E1-vsched + e2e", "model_checking",
    "stateless deviation-bounded exploration of the instrumented rdgen main() over a real scratch file system with a deterministic random source; end-to-end binary runs followed by rddetector",
    "The real main() of tools/rdgen runs with os.Args set in a scratch directory for s=1..4 (and 5,6,7,9 under four default policies) files, W=1..3 writers and five output forms (default, relative, nested, absolute, existing with larger stale samples); file operations and the random source's Read are scheduling points; at main's return the tree must hold exactly random0..random(s-1).bin of n/8 bytes, pairwise different, inside the requested directory and nothing elsewhere. End-to-end: built rdgen for s in {1,5,7,300} then rddetector must accept the directory as s samples of n bits.",
-   "deviation bound 1 (2 in thorough for s<=3, n=64); crypto/rand.Reader replaced by a deterministic never-repeating stream",
+   "deviation bound 1 (thorough: 2 for s<=3, n=64, 4 for s<=2); crypto/rand.Reader replaced by a deterministic never-repeating stream",
    "DESIGN.md section 3 C20"),
  "C14": ("E3-registry-seam", "exploration",
    "exhaustive enumeration of a stated family of periodic byte streams through the six real workflows (real registry runners memoised per distinct sample)",
